@@ -850,6 +850,13 @@ MUTANTS = [
            note='odd dimension, negative real determinant: array/|det|**(1/n) has determinant -1'),
     Mutant('complex-flag-cached-before-it-is-forced', MATRIX, _CACHE_OLD, _CACHE_NEW, 'D3',
            note='ArraySamplingSet.__init__ caches self.complex; SquareMatrices.__init__ forces config[complex]=True afterwards'),
+    Mutant('det-zero-empty-candidates-not-retried', MATRIX, "                    # No real eigenvalues. Try again.\n                    raise Retry()  # pragma: no cover\n", "                    pass\n", 'D3',
+           note='sweep L750: randint(0) raises ValueError instead of Retry'),
+    Mutant('det-zero-empty-test-inverted', MATRIX, "                if len(idxs) == 0:", "                if len(idxs) != 0:", 'D3'),
+    Mutant('det-one-threshold-test-negated', MATRIX, "            if np.abs(det) < 5e-13:\n                raise Retry()  # pragma: no cover", "            if not np.abs(det) < 5e-13:\n                raise Retry()  # pragma: no cover", 'D3'),
+    Mutant('det-zero-early-return-negated', MATRIX, "        if np.abs(np.linalg.det(array)) < 5e-13:\n            # This is close", "        if not np.abs(np.linalg.det(array)) < 5e-13:\n            # This is close", 'D3'),
+    Mutant('det-zero-eigvalsh-for-non-hermitian', MATRIX, "        elif ((self.config['symmetry'] == 'symmetric' and not self.config['complex'])", "        elif ((self.config['symmetry'] == 'symmetric' or not self.config['complex'])", 'D3'),
+    Mutant('det-zero-complex-eigenvalue-for-real-sampler', MATRIX, "            if not self.config['complex']:\n                # We need to select a real eigenvalue.", "            if self.config['complex']:\n                # We need to select a real eigenvalue.", 'D3'),
     # D4
     Mutant('exclusion-dropped-odd-antisymmetric', MATRIX, _ODD_ANTISYM, '', 'D4'),
     Mutant('exclusion-dropped-hermitian-2x2', MATRIX, _HERM_2X2, '', 'D4'),
@@ -869,7 +876,22 @@ MUTANTS = [
     Mutant('giving-up-returns', MATRIX, "        raise ValueError('Unable to construct sample for {}'\n                         .format(type(self).__name__))  # pragma: no cover", "        return array", 'D5'),
 ]
 
+_POSITIVE_OLD = """    if thetype == int:
+        return All(thetype, Range(1, float('inf')))
+    else:
+        return All(thetype, Range(0, float('inf')), NotIn([0]))
+"""
+_POSITIVE_STARRED = """    if thetype == int:
+        bounds = [Range(1, float('inf'))]
+    else:
+        bounds = [Range(0, float('inf')), NotIn([0])]
+    return All(thetype, *bounds)
+"""
+
 BENIGN = [
+    Benign('positive-validator-with-starred-bounds', VALID, _POSITIVE_OLD, _POSITIVE_STARRED),
+    Benign('odd-dimension-exclusions-as-a-loop', MATRIX, _ODD_ANTISYM + "                if self.config['symmetry'] == 'antihermitian':\n                    # Eigenvalues are all imaginary, so determinant is imaginary\n                    raise ConfigError(\"No unit-determinant antihermitian matrix exists in odd dimensions\")\n",
+           "                for kind in ('antisymmetric', 'antihermitian'):\n                    if self.config['symmetry'] == kind:\n                        raise ConfigError('No unit-determinant {} matrix exists in odd dimensions'.format(kind))\n"),
     Benign('triangular-dispatch-dict', MATRIX, _TRI_OLD, _TRI_DICT),
     Benign('symmetry-dispatch-table-of-lambdas', MATRIX, _SYM_OLD, _SYM_TABLE),
     Benign('retry-for-range-narrow-try-isinstance-dispatch', MATRIX, _LOOP_OLD, _LOOP_FOR_DISPATCH),
@@ -878,6 +900,9 @@ BENIGN = [
     Benign('int-truncated-uniform-correct', SAMPLING, "return np.random.randint(low=self.config['start'], high=self.config['stop'] + 1)",
            "start, stop = self.config['start'], self.config['stop']\n        return start + int((stop - start + 1) * np.random.random_sample())"),
     Benign('rf-in-place-arithmetic-on-a-fresh-array', SAMPLING, _RF_BODY_OLD, _RF_BODY_INPLACE_FRESH),
+    Benign('det-one-threshold-retry-dropped', MATRIX, "            if np.abs(det) < 5e-13:\n                raise Retry()  # pragma: no cover\n", ""),
+    Benign('swap-when-equal-too', SAMPLING, "super(IntegerRange, self).__init__(config, **kwargs)\n        if self.config['start'] > self.config['stop']:", "super(IntegerRange, self).__init__(config, **kwargs)\n        if self.config['start'] >= self.config['stop']:"),
+    Benign('imaginary-part-subtracted', MATRIX, "array = array + 1j*imarray", "array = array - 1j*imarray"),
     Benign('randint-positional', SAMPLING, "np.random.randint(low=self.config['start'], high=self.config['stop'] + 1)", "np.random.randint(self.config['start'], 1 + self.config['stop'])"),
     Benign('rf-divisor-reordered', SAMPLING, '/ (num_terms * input_dim)', '/ input_dim / num_terms'),
     Benign('rf-scale-first', SAMPLING, 'fullsum = fullsum * self.config["amplitude"] / (num_terms * input_dim)', 'fullsum = self.config["amplitude"] / (input_dim * num_terms) * fullsum'),
